@@ -201,17 +201,374 @@ def _run_a(rec, seed, budget, shard, nshards, group):
     run_hypothesis(rec, strat, pf(rec), budget, seed)
 
 
+# --------------------------------------------------------------------------
+# (B) generated .pc files read back by the real pkg-config
+
+from .. import sandbox                                        # noqa: E402
+from ..argdeliv import sh_split                               # noqa: E402
+import subprocess                                             # noqa: E402
+
+INC_NAMES = ['include', 'inc dir', 'api$inc', "h'dr"]
+OPT_POOL = ['-DPLAIN', '-DSPACE=a b', '-DQUOTE="q"', '-DDOLLAR=$x',
+            "-DSQ=it's", '-DNUM=42']
+LOPT_POOL = ['-Wl,--as-needed', '-L/opt/my libs', '-Wl,-rpath,/x y']
+
+
+@st.composite
+def pc_cases(draw):
+    mode = draw(st.sampled_from(['shared', 'static', 'dual']))
+    deps = {}
+    for name in draw(st.lists(st.sampled_from(['depa', 'depb', 'depc']),
+                              max_size=3, unique=True)):
+        deps[name] = {
+            'version': draw(st.sampled_from(LATTICE)),
+            'public': draw(st.one_of(st.just(None), spec_lists(max_size=2))),
+            'private': draw(st.one_of(st.just(None),
+                                      spec_lists(max_size=2))),
+        }
+        if deps[name]['public'] is None and deps[name]['private'] is None:
+            deps[name]['public'] = []
+    return {
+        'mode': mode, 'auto_fill': draw(st.booleans()),
+        'incdirs': draw(st.lists(st.sampled_from(INC_NAMES), min_size=1,
+                                 max_size=2, unique=True)),
+        'options': draw(st.lists(st.sampled_from(OPT_POOL), max_size=3,
+                                 unique=True)),
+        'link_options': draw(st.lists(st.sampled_from(LOPT_POOL), max_size=1)),
+        'private_static_dep': draw(st.booleans()),
+        'version': draw(st.sampled_from(['1.0', '2.3.4'])),
+        'deps': deps,
+    }
+
+
+def _spec_str(specs):
+    return ','.join(op + v for op, v in specs)
+
+
+def render_pc(case, src, depdir):
+    w = sandbox.write_file
+    L = ["project('c17', version={!r})".format(case['version'])]
+    for i, d in enumerate(case['incdirs']):
+        w(os.path.join(src, d, 'api{}.h'.format(i)),
+          'int foo(void);\n#define API{} 1\n'.format(i))
+        L.append("inc{} = header_directory({!r}, include='*.h')".format(
+            i, d))
+    w(os.path.join(src, 'bar.c'), 'int bar(void){return 40;}\n')
+    w(os.path.join(src, 'foo.c'), 'int bar(void);\nint foo(void)'
+      '{return 2 + bar();}\n')
+    if case['private_static_dep']:
+        L.append("bar = static_library('bar', ['bar.c'])")
+        L.append("foo = library('foo', ['foo.c'], libs=[bar])")
+    else:
+        w(os.path.join(src, 'foo.c'),
+          'int foo(void){return 42;}\n')
+        L.append("foo = library('foo', ['foo.c'])")
+    incs = ', '.join('inc{}'.format(i) for i in range(len(case['incdirs'])))
+    req = [(n, _spec_str(d['public'])) if d['public'] else n
+           for n, d in case['deps'].items() if d['public'] is not None]
+    reqp = [(n, _spec_str(d['private'])) if d['private'] else n
+            for n, d in case['deps'].items() if d['private'] is not None]
+    kw = ["version={!r}".format(case['version'])]
+    if case['auto_fill']:
+        L.append('install(foo, {})'.format(incs))
+        kw.append('auto_fill=True')
+    else:
+        kw.append('includes=[{}]'.format(incs))
+        kw.append('libs=[foo]')
+    if case['options']:
+        kw.append('options={!r}'.format(case['options']))
+    if case['link_options']:
+        kw.append('link_options={!r}'.format(case['link_options']))
+    if req:
+        kw.append('requires={!r}'.format(req))
+    if reqp:
+        kw.append('requires_private={!r}'.format(reqp))
+    L.append("pkg_config('c17pkg', {})".format(', '.join(kw)))
+    w(os.path.join(src, 'build.bfg'), '\n'.join(L) + '\n')
+    for n, d in case['deps'].items():
+        w(os.path.join(depdir, n + '.pc'),
+          'Name: {0}\nDescription: dummy\nVersion: {1}\nCflags: -DHAVE_{0}\n'
+          'Libs:\n'.format(n, d['version']))
+
+
+def pc_split(text):
+    """Split pkg-config output the way its consumers (cmake, meson,
+    autoconf's eval) do: whitespace separates, backslash escapes the next
+    character, quotes group; no variable or command expansion."""
+    out, cur, i, started = [], [], 0, False
+    quote = None
+    while i < len(text):
+        c = text[i]
+        if quote:
+            if c == quote:
+                quote = None
+            elif c == '\\' and quote == '"' and i + 1 < len(text):
+                i += 1
+                cur.append(text[i])
+            else:
+                cur.append(c)
+        elif c in ' \t\n':
+            if started:
+                out.append(''.join(cur))
+                cur, started = [], False
+        elif c == '\\' and i + 1 < len(text):
+            i += 1
+            cur.append(text[i])
+            started = True
+        elif c in '\'"':
+            quote = c
+            started = True
+        else:
+            cur.append(c)
+            started = True
+        i += 1
+    if started:
+        out.append(''.join(cur))
+    return out
+
+
+KF_DOLLAR = 'pc/dollar-unescaped'
+
+
+def pkgconf(args, pcpath, disable_uninstalled=False):
+    env = {'PATH': '/usr/bin:/bin', 'PKG_CONFIG_PATH': ':'.join(pcpath),
+           'PKG_CONFIG_LIBDIR': '/nonexistent'}
+    if disable_uninstalled:
+        env['PKG_CONFIG_DISABLE_UNINSTALLED'] = '1'
+    p = subprocess.run(['pkg-config'] + args, env=env,
+                       stdout=subprocess.PIPE, stderr=subprocess.PIPE)
+    return p.returncode, p.stdout.decode(), p.stderr.decode()
+
+
+def prop_pcfile(rec):
+    def prop(case):
+        if rec.is_open(KF_DOLLAR) and any(
+                '$' in x for x in case['options'] + case['incdirs']):
+            # open known finding: '$' is written unescaped into .pc files
+            case = dict(case, options=[o for o in case['options']
+                                       if '$' not in o],
+                        incdirs=[d for d in case['incdirs']
+                                 if '$' not in d] or ['include'])
+            rec.excluded()
+        allspecs = {}
+        for n, d in case['deps'].items():
+            allspecs[n] = (d['public'] or []) + (d['private'] or [])
+        unsat = [n for n, sp in allspecs.items() if sp and not any(
+            member(sp, p) for p in sample_points(sp))]
+        labs = {'mode:' + case['mode'],
+                'auto_fill' if case['auto_fill'] else 'explicit'}
+        if case['deps']:
+            labs.add('has-requires')
+        if any(' ' in o or '$' in o or "'" in o or '"' in o
+               for o in case['options'] + case['incdirs']):
+            labs.add('special-chars')
+        rec.case(labs, nontrivial=(
+            [case['mode'], case['auto_fill'], sorted(case['incdirs']),
+             sorted(case['options']), case['private_static_dep'],
+             sorted((n, spec_key(sp)) for n, sp in allspecs.items())]
+            if (case['deps'] or 'special-chars' in labs) else None),
+            sample=case)
+        with sandbox.scratch('c17') as tmp:
+            tmp = os.path.realpath(tmp)
+            src = os.path.join(tmp, 'src')
+            bld = os.path.join(tmp, 'bld')
+            depdir = os.path.join(tmp, 'deps')
+            prefix = os.path.join(tmp, 'pfx')
+            os.makedirs(src)
+            os.makedirs(depdir)
+            render_pc(case, src, depdir)
+            env = sandbox.base_env(os.path.join(tmp, 'home'), extra={
+                'PKG_CONFIG_PATH': depdir})
+            conf = {'shared': ['--enable-shared', '--disable-static'],
+                    'static': ['--disable-shared', '--enable-static'],
+                    'dual': ['--enable-shared', '--enable-static']}[
+                        case['mode']] + ['--prefix=' + prefix]
+            r = sandbox.configure(src, bld, env, backend='make', extra=conf)
+            if unsat:
+                if r.rc == 0:
+                    raise Violation('pc/unsat-accepted', 'requirements on {} '
+                                    'cannot be satisfied by any version but '
+                                    'configure succeeded'.format(unsat), case)
+                rec.classes['unsatisfiable-rejected'] += 1
+                return
+            if r.rc != 0:
+                if 'specifier' in r.err:
+                    rec.classes['satisfiable-over-rejected'] += 1
+                    return
+                bad = [n for n, sp in allspecs.items()
+                       if sp and not member(sp, case['deps'][n]['version'])]
+                if bad and 'unable to find package' in r.err:
+                    # bfg9000 loads its own package through pkg-config, which
+                    # rightly refuses: the installed dependency is outside
+                    # the required range
+                    rec.classes['dependency-version-unmet'] += 1
+                    return
+                raise Violation('pc/configure-failed', r.err.strip()[-700:],
+                                case)
+            b = sandbox.run_make(bld, env, ['all'])
+            if b.rc != 0:
+                raise Violation('pc/build-failed',
+                                (b.err + b.out).strip()[-600:], case)
+            i = sandbox.run_make(bld, env, ['install'])
+            if i.rc != 0:
+                raise Violation('pc/install-failed',
+                                (i.err + i.out).strip()[-600:], case)
+            variants = [
+                ('uninstalled', [os.path.join(bld, 'pkgconfig'), depdir],
+                 False, [os.path.join(src, d) for d in case['incdirs']],
+                 bld),
+                ('installed', [os.path.join(prefix, 'lib', 'pkgconfig'),
+                               depdir], True,
+                 [os.path.join(prefix, 'include')], os.path.join(prefix,
+                                                                 'lib')),
+            ]
+            for what, pcpath, dis, incdirs, libdir in variants:
+                rc, out, err = pkgconf(['--cflags', 'c17pkg'], pcpath, dis)
+                if rc != 0:
+                    # legitimate only if a dependency's version is outside
+                    # the script's specifiers
+                    bad = [n for n, sp in allspecs.items()
+                           if sp and not member(sp,
+                                                case['deps'][n]['version'])]
+                    if bad:
+                        continue
+                    raise Violation('pc/' + what + '/cflags-failed',
+                                    'pkg-config --cflags failed: ' +
+                                    err.strip()[-400:], case)
+                flags = pc_split(out.strip())
+                if flags is None:
+                    raise Violation('pc/' + what + '/cflags-unparsable',
+                                    'pkg-config output is not valid sh: {!r}'
+                                    .format(out), case)
+                got_inc = [os.path.normpath(f[2:]) for f in flags
+                           if f.startswith('-I')]
+                for d in incdirs:
+                    if os.path.normpath(d) not in got_inc:
+                        if '$' in d:
+                            rec.fail(KF_DOLLAR, "include directory {!r}: '$' "
+                                     'is written unescaped into the .pc file: '
+                                     'pkg-config prints {!r}'.format(
+                                         d, out.strip()), case)
+                            continue
+                        raise Violation('pc/' + what + '/include-dir',
+                                        '--cflags {!r} lacks the include '
+                                        'directory {!r}'.format(flags, d),
+                                        case)
+                for o in case['options']:
+                    if o not in flags:
+                        if '$' in o:
+                            rec.fail(KF_DOLLAR, "option {!r} is written with "
+                                     "an unescaped '$' into the .pc file: "
+                                     'pkg-config prints {!r}'.format(
+                                         o, out.strip()), case)
+                            continue
+                        raise Violation('pc/' + what + '/option', '--cflags '
+                                        '{!r} lacks the declared option {!r} '
+                                        '(raw output {!r})'.format(
+                                            flags, o, out.strip()), case)
+                for n, d in case['deps'].items():
+                    if d['public'] is not None and \
+                            '-DHAVE_' + n not in flags:
+                        raise Violation('pc/' + what + '/requires-cflags',
+                                        'flags of the public requirement {} '
+                                        'are missing'.format(n), case)
+                static = case['mode'] == 'static'
+                rc, out, err = pkgconf(['--libs'] + (['--static'] if static
+                                                     else []) + ['c17pkg'],
+                                       pcpath, dis)
+                lflags = pc_split(out.strip()) or []
+                if rc != 0 or '-lfoo' not in lflags or not any(
+                        f.startswith('-L') and os.path.normpath(f[2:]) ==
+                        os.path.normpath(libdir) for f in lflags):
+                    raise Violation('pc/' + what + '/libs', '--libs gives '
+                                    '{!r} (exit {}), expected -L{} -lfoo'
+                                    .format(lflags, rc, libdir), case)
+                for o in case['link_options']:
+                    if o not in lflags:
+                        raise Violation('pc/' + what + '/link-option',
+                                        '--libs {!r} lacks {!r}'.format(
+                                            lflags, o), case)
+                if static and case['private_static_dep'] and \
+                        '-lbar' not in lflags:
+                    raise Violation('pc/' + what + '/libs-private',
+                                    '--libs --static {!r} lacks the private '
+                                    'static dependency -lbar'.format(lflags),
+                                    case)
+                # a consumer builds against the package and runs
+                w = sandbox.write_file
+                cons = os.path.join(tmp, 'consumer_' + what + '.c')
+                w(cons, '#include "api0.h"\nint main(void)'
+                  '{return foo() == 42 ? 0 : 1;}\n')
+                exe = os.path.join(tmp, 'consumer_' + what)
+                cflags = [f for f in flags if not f.startswith('-DHAVE_')]
+                link = [f for f in lflags
+                        if not f.startswith(('-L/opt', '-Wl,-rpath,/x'))]
+                c = subprocess.run(['gcc', cons, '-o', exe] + cflags + link,
+                                   stdout=subprocess.PIPE,
+                                   stderr=subprocess.PIPE)
+                if c.returncode != 0:
+                    raise Violation('pc/' + what + '/consumer-build',
+                                    'a consumer does not build with the '
+                                    'flags {!r} {!r}: {}'.format(
+                                        cflags, link,
+                                        c.stderr.decode()[-400:]), case)
+                run = subprocess.run([exe], env={'LD_LIBRARY_PATH': libdir},
+                                     stdout=subprocess.PIPE,
+                                     stderr=subprocess.PIPE)
+                if run.returncode != 0:
+                    raise Violation('pc/' + what + '/consumer-run',
+                                    'consumer exited {}: {}'.format(
+                                        run.returncode,
+                                        run.stderr.decode()[-300:]), case)
+            # --exists agrees with the script's specifiers for every version
+            for n, sp in allspecs.items():
+                for v in sample_points(sp)[::3]:
+                    sandbox.write_file(
+                        os.path.join(depdir, n + '.pc'),
+                        'Name: {0}\nDescription: dummy\nVersion: {1}\n'
+                        'Cflags: -DHAVE_{0}\nLibs:\n'.format(n, v))
+                    rc, out, err = pkgconf(
+                        ['--exists', 'c17pkg'],
+                        [os.path.join(bld, 'pkgconfig'), depdir])
+                    others_ok = all(
+                        not s2 or member(s2, case['deps'][m]['version'])
+                        for m, s2 in allspecs.items() if m != n)
+                    want = (not sp or member(sp, v)) and others_ok
+                    if (rc == 0) != want:
+                        raise Violation(
+                            'pc/requires-version', 'with {} at version {} '
+                            'pkg-config --exists {} but the script\'s '
+                            'specifiers {} say {}'.format(
+                                n, v, 'succeeds' if rc == 0 else 'fails',
+                                _spec_str(sp), 'accept' if want else
+                                'reject'), case)
+                sandbox.write_file(
+                    os.path.join(depdir, n + '.pc'),
+                    'Name: {0}\nDescription: dummy\nVersion: {1}\n'
+                    'Cflags: -DHAVE_{0}\nLibs:\n'.format(
+                        n, case['deps'][n]['version']))
+    return prop
+
+
+def _run_b(rec, seed, budget, shard, nshards):
+    run_hypothesis(rec, pc_cases(), prop_pcfile(rec), budget, seed,
+                   shrink=(os.environ.get('VERIF_TIER') == 'thorough'))
+
+
 def tasks(tier):
     return [
         Task('simplify', _run_a, quick=16 * 1500, thorough=16 * 100000,
              group='simplify'),
         Task('reqset', _run_a, quick=16 * 500, thorough=16 * 30000,
              group='reqset'),
+        Task('pcfile', _run_b, quick=16 * 4, thorough=16 * 60),
     ]
 
 
 def replay(task, case, rec):
     if task in A_PROPS:
         A_PROPS[task][0](rec)(case)
+    elif task == 'pcfile':
+        prop_pcfile(rec)(case)
     else:
         raise HarnessError('unknown task ' + task)
